@@ -99,6 +99,13 @@ pub fn judge(case: &FaultCase, run: &FaultRun) -> Outcome {
 			if success {
 				return Outcome::fail("C08:error-taken-for-success", format!("error answer {} yet the attempt reports success; {d}", f.action.name()));
 			}
+			// the error ends the attempt: the refused request is the last one the CA sees of it
+			if let (Some(last), Some(tx)) = (a.reqs.last(), txs.first()) {
+				if *last != tx.idx {
+					let after: Vec<String> = a.reqs.iter().filter(|i| **i > tx.idx).map(|i| run.snap.log[*i].pos.name()).collect();
+					return Outcome::fail("C08:error-ignored", format!("error answer {} at {}: the attempt went on as if the request had succeeded ({} later requests: {:?}); {d}", f.action.name(), f.pos.name(), after.len(), after.iter().take(6).collect::<Vec<_>>()));
+				}
+			}
 			nontrivial = !matches!(f.pos, Pos::NewAccount | Pos::NewOrder);
 		}
 		Action::Status(_) => {
@@ -223,7 +230,7 @@ pub fn cases(tier: Tier) -> Vec<FaultCase> {
 }
 
 pub fn run(ctx: &Ctx, rep: &mut Report) {
-	rep.rule = "enumerated: every POST position of a 2-identifier issuance x each of the 24 ACME error types x run lengths of consecutive errors on that request (recoverable types: k in {1,2,9,10,12} everywhere and all k in 1..12 at newOrder, challenge and finalize in quick, all k everywhere in thorough; other types k in {1,3}); non-JSON bodies, problem without/with unknown type, empty 4xx/5xx at every POST position; objects that never reach the awaited status. Also answers with status 300/301 (no Location), 304, 600 and 999, which are neither success nor 4xx/5xx. Oracle on the mock CA's log of the attempt: recoverable => min(k+1,10) consecutive transmissions, each carrying the nonce of the immediately preceding response, same URL/kid/jwk/payload, validly signed, success iff k <= 9; any other error => exactly one transmission and a failed attempt; at most 20 polls per object and failure afterwards. Non-trivial = k >= 2, or a non-recoverable error after newOrder, or a poll-bound case.".into();
+	rep.rule = "enumerated: every POST position of a 2-identifier issuance x each of the 24 ACME error types x run lengths of consecutive errors on that request (recoverable types: k in {1,2,9,10,12} everywhere and all k in 1..12 at newOrder, challenge and finalize in quick, all k everywhere in thorough; other types k in {1,3}); non-JSON bodies, problem without/with unknown type, empty 4xx/5xx at every POST position; objects that never reach the awaited status. An error answer that is not retried ends the attempt (no later request of that attempt). Also answers with status 300/301 (no Location), 304, 600 and 999, which are neither success nor 4xx/5xx. Oracle on the mock CA's log of the attempt: recoverable => min(k+1,10) consecutive transmissions, each carrying the nonce of the immediately preceding response, same URL/kid/jwk/payload, validly signed, success iff k <= 9; any other error => exactly one transmission and a failed attempt; at most 20 polls per object and failure afterwards. Non-trivial = k >= 2, or a non-recoverable error after newOrder, or a poll-bound case.".into();
 	rep.assume("retry obligation is judged on POST requests; for directory/newNonce (GET) only 'an error is never taken for success'; accountDoesNotExist at newOrder may be followed by one re-registration and one re-send");
 	run_replays::<FaultCase>(ctx, rep, "enum", &exec);
 	if ctx.replay.is_some() {
